@@ -568,6 +568,31 @@ def idx_param_failures():
                        f"truncated to 28 (d[28] = {d[28]}, d[29] = {d[29]}); numpy itself refuses a float subscript")
     except Exception:  # noqa — refused loudly
         pass
+    # index parameters as the bounds of a slice of a parameter, p[i:j].  A bound is one position: with one entry per bound the
+    # meaning is p[int(i):int(j)] (error or exactly those numbers); with several entries in a bound the subscript has no meaning
+    # (numpy refuses it) and must fail loudly
+    pv = np.array([2.0, 3.0, 5.0, 7.0, 11.0, 13.0])
+    for i_val, j_val in (([1], [4]), ([1, 3], [4]), ([0], [2, 5]), ([2, 0], [5])):
+        for sparse in (True, False):
+            try:
+                from Solverz import Model, Var, Param, IdxParam, Eqn, made_numerical
+                n = j_val[0] - i_val[0]
+                m = Model(); m.x = Var("x", [1.0 + 0.5 * k for k in range(n)]); m.p = Param("p", pv)
+                m.i = IdxParam("i", i_val); m.j = IdxParam("j", j_val)
+                m.f = Eqn("f", m.p[m.i:m.j] * m.x - 1)
+                eqs, y0 = lang.quiet(m.create_instance)
+                nd = lang.quiet(made_numerical, eqs, y0, sparse=sparse)
+                yv = np.array([0.7 + 0.3 * k for k in range(n)])
+                F = np.asarray(nd.F(yv, nd.p), dtype=float).reshape(-1)
+                J = nd.J(yv, nd.p)
+                J = np.asarray(J.toarray() if hasattr(J, "toarray") else J, dtype=float)
+            except Exception:  # noqa — refused loudly
+                continue
+            tag = f"p[i:j] with i = IdxParam({i_val}), j = IdxParam({j_val}), inline {'sparse' if sparse else 'dense'}"
+            if len(i_val) > 1 or len(j_val) > 1:
+                out.append(f"{tag}: a slice bound with several entries has no meaning (numpy refuses it) but F = {F} and J were returned")
+            elif not (np.allclose(F, pv[i_val[0]:j_val[0]] * yv - 1) and np.allclose(J, np.diag(pv[i_val[0]:j_val[0]]))):
+                out.append(f"{tag}: F = {F}, the declared equation gives {pv[i_val[0]:j_val[0]] * yv - 1}")
     return out
 
 
